@@ -147,6 +147,11 @@ func main() {
 		fmt.Fprintln(os.Stderr, "srcgen: -out required")
 		os.Exit(2)
 	}
+	// imports of the repository's own packages are resolved by the go command: run it inside the repository, whatever the
+	// caller's working directory is (otherwise those imports fail silently and functions that use them are skipped)
+	if abs, err := filepath.Abs(*repo); err == nil {
+		build.Default.Dir = abs
+	}
 	var summary []string
 	for _, u := range units {
 		g, err := translateUnit(*repo, u)
